@@ -235,7 +235,7 @@ def w_programs(ctx, rng, i):
             k = int(rng.integers(-len(model), len(model)))
             x, model = x[k], [model[k]]
             prog.append(("index", k < 0))
-        ok = isinstance(x, T.binary_sequence) and valid_data(x.data) and x.data.tolist() == model and len(x) == len(model) and int(x.ones()) + int(x.zeros()) == len(model)
+        ok = isinstance(x, T.binary_sequence) and valid_data(x.data) and x.data.tolist() == model and len(x) == len(model) and int(x.ones()) + int(x.zeros()) == len(model) and int(x.ones()) == sum(model)
         ctx.describe(program=prog, length=L)
         if not ctx.check("bs.program", ok, f"after {prog[-1]} real={core.jsonable(getattr(x, 'data', None))} model={model[:40]}"):
             break
@@ -306,6 +306,27 @@ def w_compare(ctx, rng, i):
     ctx.bin("cmp.kind", kind)
 
 
+def w_counts(ctx, rng, i):
+    """ones() / zeros() are the true counts for sequences of any length and density (a count kept in the uint8 of the data wraps at
+    256): lengths around 255 / 256 / 65535 / 65536 and long ones, densities from empty to all ones, also after ~ and +."""
+    n = int([255, 256, 257, 511, 1000, 5000, 65535, 65536, 70001, 300][i % 10])
+    dens = float([1.0, 0.5, 0.0, 0.9, 0.999, 0.3][(i // 10) % 6])
+    bits = (rng.random(n) < dens).astype(np.uint8)
+    k = int(bits.sum())
+    form = ["ndarray", "list", "str", "nd_bool"][int(rng.integers(4))]
+    src = {"ndarray": lambda: bits.copy(), "list": lambda: bits.tolist(), "str": lambda: "".join(map(str, bits.tolist())), "nd_bool": lambda: bits.astype(bool)}[form]()
+    ctx.describe(n=n, ones=k, form=form)
+    with core.quiet():
+        a = T.binary_sequence(src)
+        b = T.binary_sequence(rng.integers(0, 2, int(rng.integers(1, 400))))
+        kb = int(b.data.sum())
+        ab = a + b
+        got = dict(ones=int(a.ones()), zeros=int(a.zeros()), inv_ones=int((~a).ones()), inv_zeros=int((~a).zeros()), cat_ones=int(ab.ones()), cat_zeros=int(ab.zeros()))
+    want = dict(ones=k, zeros=n - k, inv_ones=n - k, inv_zeros=k, cat_ones=k + kb, cat_zeros=n + len(b) - k - kb)
+    ctx.check("bs.counts", got == want, f"ones()/zeros() of a sequence of {n} slots with {k} ones (and of ~a, a+b): {got}, true counts {want}")
+    ctx.case(("counts", n, dens, form), sample=dict(n=n, ones=k) if i < 2 else None)
+
+
 def w_library_use(ctx, rng, i):
     """binary sequences produced inside the library (PRBS, encoders, DSP comparisons) pass the same invariant."""
     import opticomlib.devices as dv
@@ -329,6 +350,7 @@ WORKLOADS = [
     Workload("programs", w_programs, 2000, 200000),
     Workload("compare", w_compare, 1500, 100000),
     Workload("library_use", w_library_use, 30, 1000),
+    Workload("counts", w_counts, 60, 1200),
     Workload("repo_tests", lambda ctx, rng, i: core.run_repo_tests(ctx), 1, 1, budget=1800, tiers=("thorough",)),
 ]
 
